@@ -167,9 +167,11 @@ def admissible(req, table, mcast=False):
                 outs += err(0x85)      # the unknown-resource handler has no multicast support flag
             else:
                 outs += handler_outcomes(req, "unknown", con)
-        if segments == WELLKNOWN:
+        if segments == WELLKNOWN and 5 in nums and not (um is not None and method in um):
+            outs += err(0x8C)                  # the built-in resource exists: 4.12, whatever the method
+        elif segments == WELLKNOWN:
             if 5 in nums:
-                outs += err(0x8C)              # the built-in resource exists
+                outs += err(0x8C)
             if method == 1:
                 outs += [Outcome(("reply", 0x45))]
                 if no_response_suppresses(req, 0x45):
